@@ -69,13 +69,14 @@ func flatStmts(list []ast.Stmt, out *[]string) {
 }
 
 func c18(r *core.Run) {
-	r.Expl = "C18 (flow hash map behaves as a map with additive updates): decides (1) the map owns its keys: in Set and SetOrUpdate the slot for a new key is a slice of the map's own key arena (never the caller's slice), the caller's bytes are copied into it, the arena is grown before the slot is cut and the arena position advances by the key length; (2) Set and SetOrUpdate are siblings: identical bucket search, growth and insertion code, differing only in the update of an existing value and in the value stored; (3) Map.Merge's inlined iteration and Iter.Next are siblings: identical traversal (old / new buckets, evacuation checks, wrap-around), differing only in what is done with a found entry; (4) additive update and insertion agree on which parameter feeds which counter (all four); (5) lookup consults an old bucket exactly when it has not been evacuated (the same test the iterator and the growth code use). NOT decided: map semantics under growth as executed, exactly-once iteration, load-factor arithmetic."
+	r.Expl = "C18 (flow hash map behaves as a map with additive updates): decides (1) the map owns its keys: in Set and SetOrUpdate the slot for a new key is a slice of the map's own key arena (never the caller's slice), the caller's bytes are copied into it, the arena is grown before the slot is cut and the arena position advances by the key length; every value ever stored into Map.keyData is a fresh allocation whose capacity equals its length, the arena appended to itself, or nil (the arena grows by append: spare capacity shared with another owner — e.g. two maps cut from one buffer — is overwritten by the growth); (2) Set and SetOrUpdate are siblings: identical bucket search, growth and insertion code, differing only in the update of an existing value and in the value stored; (3) Map.Merge's inlined iteration and Iter.Next are siblings: identical traversal (old / new buckets, evacuation checks, wrap-around), differing only in what is done with a found entry; (4) additive update and insertion agree on which parameter feeds which counter (all four); (5) lookup consults an old bucket exactly when it has not been evacuated (the same test the iterator and the growth code use). NOT decided: map semantics under growth as executed, exactly-once iteration, load-factor arithmetic."
 	r.Floor = 12
-	r.Rules = append(r.Rules, "key-arena-origin (P9)", "clone-agreement (P6)", "counter-positions", "evacuation-test-siblings")
+	r.Rules = append(r.Rules, "key-arena-origin (P9)", "key-arena-exclusive (P9)", "clone-agreement (P6)", "counter-positions", "evacuation-test-siblings")
 	p := r.Prog("cgo")
 	for _, name := range []string{"Map.Set", "Map.SetOrUpdate"} {
 		c18Arena(r, p, name)
 	}
+	c18ArenaOwnership(r, p)
 	c18SetSiblings(r, p)
 	c18MergeSiblings(r, p)
 	ruleSetOrUpdateMapping(r, p)
@@ -297,4 +298,138 @@ func c18Lookup(r *core.Run, p *core.Prog) {
 	fEv := p.FieldObj(pkgHashmap, "Map", "nEvacuate")
 	r.Check(rule, "mapaccessK:independent-of-evacuation-progress", p.Rel(f.Decl.Pos()), fEv == nil || !core.MentionsField(info, f.Decl.Body, fEv),
 		"a lookup must not reason about the evacuation mark: the mark names the next bucket to evacuate, which still holds its entries")
+}
+
+// c18ArenaOwnership: every store into Map.keyData is exclusively owned memory.
+func c18ArenaOwnership(r *core.Run, p *core.Prog) {
+	const rule = "key-arena-exclusive"
+	fData := p.FieldObj(pkgHashmap, "Map", "keyData")
+	if fData == nil {
+		r.Missing(rule, "Map.keyData")
+		return
+	}
+	// classify an expression: "" = exclusively owned, otherwise the reason it is not (or "?…" if unknown)
+	var classify func(f *core.Fn, e ast.Expr, depth int) string
+	classify = func(f *core.Fn, e ast.Expr, depth int) string {
+		info := f.Info()
+		e = ast.Unparen(e)
+		if core.IsNil(info, e) {
+			return ""
+		}
+		switch x := e.(type) {
+		case *ast.CallExpr:
+			switch core.CallName(info, x) {
+			case "builtin.make":
+				if len(x.Args) == 3 && core.Str(x.Args[1]) != core.Str(x.Args[2]) {
+					if a, oka := core.ConstInt(info, x.Args[1]); oka {
+						if b, okb := core.ConstInt(info, x.Args[2]); okb && a == b {
+							return ""
+						}
+					}
+					return "make with capacity beyond the length is fine for one owner only if nobody else slices it: " + core.Str(e)
+				}
+				return ""
+			case "builtin.append":
+				if len(x.Args) >= 1 && core.SelField(info, x.Args[0]) == fData {
+					return ""
+				}
+				return "append to something other than the arena itself: " + core.Str(e)
+			}
+			return "?result of " + core.Str(x.Fun)
+		case *ast.SliceExpr:
+			if core.SelField(info, x.X) == fData {
+				return ""
+			}
+			if x.Slice3 && x.Max != nil && core.Str(x.Max) == core.Str(x.High) {
+				return classify(f, x.X, depth+1)
+			}
+			return fmt.Sprintf("%s is a slice of a larger buffer without a capacity limit: appending to the arena grows into the rest of that buffer", core.Str(e))
+		case *ast.Ident:
+			o := info.Uses[x]
+			if o == nil {
+				return "?" + x.Name
+			}
+			sig := f.Obj.Type().(*types.Signature)
+			for i := 0; i < sig.Params().Len(); i++ {
+				if sig.Params().At(i) != o {
+					continue
+				}
+				if depth > 2 || f.Obj.Exported() {
+					return fmt.Sprintf("parameter %s of %s: the arena is supplied by the caller", x.Name, f.Name)
+				}
+				// unexported function: every call site in the package must pass exclusively owned memory
+				n := 0
+				for _, g := range p.Funcs(pkgHashmap) {
+					for _, c := range core.Calls(g.Decl.Body, true) {
+						if core.Callee(g.Info(), c) == types.Object(f.Obj) && i < len(c.Args) {
+							n++
+							if why := classify(g, c.Args[i], depth+1); why != "" {
+								return fmt.Sprintf("%s (argument of %s at %s)", why, f.Name, p.Rel(c.Pos()))
+							}
+						}
+					}
+				}
+				if n == 0 {
+					return "?no call site of " + f.Name
+				}
+				return ""
+			}
+			if d := singleDef(info, f.Decl.Body, o); d != nil {
+				return classify(f, d, depth+1)
+			}
+			// x, y := a, b (parallel definition)
+			var def ast.Expr
+			core.Walk(f.Decl.Body, false, func(y ast.Node) bool {
+				if a, ok := y.(*ast.AssignStmt); ok && len(a.Lhs) == len(a.Rhs) {
+					for i, l := range a.Lhs {
+						if core.ObjOf(info, l) == o {
+							def = a.Rhs[i]
+						}
+					}
+				}
+				return true
+			})
+			if def != nil {
+				return classify(f, def, depth+1)
+			}
+			return "?" + x.Name
+		}
+		return "?" + core.Str(e)
+	}
+	n := 0
+	for _, f := range p.Funcs(pkgHashmap) {
+		info := f.Info()
+		k := 0
+		core.Walk(f.Decl.Body, true, func(x ast.Node) bool {
+			var val ast.Expr
+			switch st := x.(type) {
+			case *ast.AssignStmt:
+				for i, l := range st.Lhs {
+					if core.SelField(info, l) == fData && i < len(st.Rhs) && len(st.Lhs) == len(st.Rhs) {
+						val = st.Rhs[i]
+					}
+				}
+			case *ast.KeyValueExpr:
+				if id, ok := st.Key.(*ast.Ident); ok && info.Uses[id] == types.Object(fData) {
+					val = st.Value
+				}
+			}
+			if val == nil {
+				return true
+			}
+			n++
+			k++
+			why := classify(f, val, 0)
+			key := fmt.Sprintf("%s:keyData-store#%d", f.Name, k)
+			if strings.HasPrefix(why, "?") {
+				r.Undecided(rule, key, p.Rel(val.Pos()), "origin of the value stored into Map.keyData not recognised: "+why[1:])
+			} else {
+				r.Check(rule, key, p.Rel(val.Pos()), why == "", why)
+			}
+			return true
+		})
+	}
+	if n < 4 {
+		r.Undecided(rule, "Map.keyData:stores", "-", fmt.Sprintf("only %d stores into Map.keyData found", n))
+	}
 }
